@@ -316,8 +316,16 @@ pub fn run(args: &Args, rep: &mut Report) {
         .into();
     let n: u64 = args.extra_u64("cases").unwrap_or(args.pick(5, 120));
     let rt = tokio::runtime::Builder::new_multi_thread().worker_threads(2).enable_all().build().unwrap();
+    let only: Option<u64> = args.replay.as_ref().and_then(|p| {
+        let v: vcommon::Value = vcommon::serde_json::from_slice(&std::fs::read(p).ok()?).ok()?;
+        v["replay"]["case"].as_u64()
+    });
     for case in 0..n {
-        if !rep.within_budget() {
+        if let Some(o) = only {
+            if o != case {
+                continue;
+            }
+        } else if !rep.within_budget() {
             rep.count("stopped_by_budget");
             break;
         }
